@@ -103,8 +103,10 @@ func localDefs(info *types.Info, body ast.Node) map[types.Object]ast.Expr {
 		case *ast.ValueSpec:
 			for i, id := range s.Names {
 				if obj := info.Defs[id]; obj != nil {
-					count[obj]++
+					// `var x T` without a value only gives the name: with ONE assignment behind it, that assignment is the
+					// definition (the spelling named results and hoisted declarations produce)
 					if i < len(s.Values) {
+						count[obj]++
 						defs[obj] = s.Values[i]
 					}
 				}
